@@ -36,6 +36,7 @@ type ChainCfg struct {
 	Marker       string
 	RunDir       string
 	Repeat       bool // run the implementation several times per case (map iteration order)
+	Degenerate   bool // C15: odd layouts (empty rules, missing keys)
 }
 
 type Level struct {
@@ -208,6 +209,9 @@ func (g *chainGen) buildLevel(depth int, initial Files, signers []*TestKey, name
 		}
 		st = st.Set("expected_materials", g.rules(prevName, style, true, mats))
 		st = st.Set("expected_products", g.rules(prevName, style, false, prods))
+		if cfg.Degenerate && rng.Chance(25) {
+			st = st.Set("expected_products", []any{[]any{[]any{}}, []any{nil}, []any{[]any{"ALLOW"}}}[rng.Intn(3)])
+		}
 		steps = append(steps, st)
 
 		// --- link population ---
@@ -315,6 +319,22 @@ func (g *chainGen) buildLevel(depth int, initial Files, signers []*TestKey, name
 				put(shortID(victim.ID), g.wrapSign(linkTree(name, mats, oddProds, cmd), cfg.LinkDSSE, []sigSpec{{key: victim, garbage: "zz!!"}}))
 			case "corrupt-sig":
 				put(shortID(victim.ID), g.wrapSign(linkTree(name, mats, oddProds, cmd), cfg.LinkDSSE, []sigSpec{{key: victim, corrupt: true}}))
+			case "layout-as-link":
+				// a layout signed by an authorized functionary with no sublayout directory behind it
+				inner := O("_type", "layout", "steps", []any{O("_type", "step", "pubkeys", []any{}, "expected_command", []any{}, "threshold", JNum("0"), "name", "x", "expected_materials", []any{[]any{}}, "expected_products", []any{})},
+					"inspect", []any{}, "keys", JObj{}, "expires", "2999-01-01T00:00:00Z", "readme", "")
+				put(shortID(victim.ID), g.wrapSign(inner, cfg.LinkDSSE, []sigSpec{{key: victim}}))
+			case "many-sigs":
+				var specs []sigSpec
+				for q := 0; q < 40; q++ {
+					specs = append(specs, sigSpec{key: foreign, keyidOvr: genHex(rng, 64), garbage: "00"})
+				}
+				specs = append(specs, sigSpec{key: victim})
+				put(shortID(victim.ID), g.wrapSign(linkTree(name, mats, prods, cmd), false, specs))
+			case "empty-rule-link":
+				put(shortID(victim.ID), g.wrapSign(linkTree(name, mats, Files{"": ""}, cmd), cfg.LinkDSSE, []sigSpec{{key: victim}}))
+			case "huge":
+				files[name+".ffffffff.link"] = strings.Repeat("{\"a\":", 20000)
 			case "cert":
 				if certLeafKey == nil {
 					continue
